@@ -202,6 +202,37 @@ def h_noisy_expect(env, spec, n, assign, word):
         env.check_true(abs(complex(val)) <= abs(c) + 1e-9, "estimate bounded by |c|")
 
 
+def h_noisy_prepared(env, spec, n, assign, words):
+    """the density matrix handed back by a noisy simulate(return_statevector=True) and then given to
+    expectation_value_from_prepared_state: the value is tr(rho O) for operators with X, Z and (an odd number of) Y factors"""
+    from tangelo.linq import Circuit
+    from tangelo.toolboxes.operators import QubitOperator
+    gates, params = build_gates(env, spec)
+    circ = Circuit(gates, n_qubits=n)
+    nm, ref = make_noise(env, assign)
+    op = QubitOperator()
+    terms = {}
+    for i, w in enumerate(words):
+        c = env.real(f"c{i}", lo=-2, hi=2)
+        op.terms[tuple(w)] = c
+        terms[tuple(w)] = c
+    want = oracle_dm(spec, params, n, ref)
+    b = backend(env, nm, n_shots=(1 if env.symbolic else 10))
+    from harness import c02
+    try:
+        if env.symbolic:
+            import tangelo.linq.target.target_cirq as tc
+            real = tc.__dict__.get("_verif_real_translate_operator") or tc.translate_operator
+            tc.__dict__["_verif_real_translate_operator"] = real
+            tc.__dict__["translate_operator"] = c02._sym_translate_operator(real)
+        _, rho = b.simulate(circ, return_statevector=True)
+        val = b.expectation_value_from_prepared_state(op, n, rho)
+    finally:
+        c02._restore()
+    env.check_eq(val, R.dm_expectation(want, n, terms).real if not env.symbolic else R.dm_expectation(want, n, terms),
+                 f"expectation_value_from_prepared_state(noisy density matrix) == tr(rho O) for words {words}")
+
+
 def h_zero(env, spec, n, assign):
     """zero error rates reproduce the noiseless state (concrete zeros, symbolic angles)"""
     from tangelo.linq import Circuit
@@ -386,6 +417,9 @@ def shapes(tier, seed):
     ex = [(cases[2], [(0, "X"), (1, "Z")]), (cases[3], [(1, "Y")]), (cases[0], [(0, "Z")]), (cases[4], [(0, "X"), (1, "Y")])]
     for i, ((spec, n, assign), word) in enumerate(ex):
         out.append(Shape(f"expect/{i}", h_noisy_expect, dict(spec=spec, n=n, assign=assign, word=word), modules=MODS, max_paths=64))
+    for i, (ci, ws) in enumerate([(0, [[(0, "Y")], [(0, "X")]]), (3, [[(0, "Y"), (1, "Z")], [(0, "X"), (1, "Y")], [(1, "Z")]]), (4, [[(0, "Y"), (1, "Y")], [(1, "Y")]])]):
+        sp_, n_, as_ = cases[ci]
+        out.append(Shape(f"prepared/{i}", h_noisy_prepared, dict(spec=sp_, n=n_, assign=as_, words=ws), modules=MODS, max_paths=64))
     for case in ("extend-after-use", "zero-first/pauli-depol", "zero-first/depol-pauli"):
         out.append(Shape(f"model-history/{case}", h_model_history, dict(case=case), modules=MODS, max_paths=32))
     for case in ("type", "pauli-notlist", "pauli-len", "depol-list", "twice", "no-shots", "unsupported-backend", "prob>1", "prob<0",
